@@ -328,10 +328,14 @@ def fixed_list_rule(B, rep, rule):
     ltn = [v["name"] for v in lt[1]["variants"]]
     if "Mixed" not in ltn:
         raise AnchorMissing("ListType::Mixed")
-    recv = Variant(TL, tln.index("List"), "List", [Variant(lt[0], ltn.index("Mixed"), "Mixed", [Opaque("elements")])])
+    # a list type that cannot be read as an open list: [int, str] (concrete, so that try_coerce_to_open is evaluated, not guessed)
+    from props import _hashkeys
+    recv = _hashkeys.Types(F).build(("Mixed", ["Int", "Str"]), "recv")
+    ms_ = dict(tables.MODELS)
+    ms_.update(_hashkeys._iter_models())
     n = 0
     for name in B.names():
-        it = Interp(F, models=tables.MODELS, max_depth=8, max_paths=256)
+        it = Interp(F, models=ms_, max_depth=10, max_paths=512)
         outs = it.run(B.gpt, [recv, Str(name)])
         B.evals += 1
         offered_unconditionally = False
